@@ -203,6 +203,14 @@ Fixpoint deep_eq_fuel (fuel : nat) (a b : goval) : bool :=
              | x :: t1, y :: t2 => deep_eq_fuel f x y && go t1 t2
              | _, _ => false
              end) l1 l2
+      | VSlice e1 l1, VSlice e2 l2 =>
+          Z.eqb e1 e2 &&
+          (fix go (l1 l2 : list goval) : bool :=
+             match l1, l2 with
+             | [], [] => true
+             | x :: t1, y :: t2 => deep_eq_fuel f x y && go t1 t2
+             | _, _ => false
+             end) l1 l2
       | VObj _ m1, VObj _ m2 =>
           Nat.eqb (length m1) (length m2) &&
           forallb (fun kv => match (fix find (m : list (str * goval)) : option goval :=
@@ -219,7 +227,7 @@ Fixpoint deep_eq_fuel (fuel : nat) (a b : goval) : bool :=
 
 Fixpoint goval_depth (v : goval) : nat :=
   match v with
-  | VArr _ l => S (fold_left (fun acc e => Nat.max acc (goval_depth e)) l O)
+  | VArr _ l | VSlice _ l => S (fold_left (fun acc e => Nat.max acc (goval_depth e)) l O)
   | VObj _ m => S (fold_left (fun acc kv => Nat.max acc (goval_depth (snd kv))) m O)
   | _ => 1%nat
   end.
@@ -239,6 +247,7 @@ Fixpoint goval_code_fuel (fuel : nat) (v : goval) : list Z :=
       | VInt _ z => [4; z]
       | VJnum lit _ _ => [5; lit]
       | VArr _ l => [6; Z.of_nat (length l)] ++ flat_map (goval_code_fuel f) l
+      | VSlice et l => [8; et; Z.of_nat (length l)] ++ flat_map (goval_code_fuel f) l
       | VObj _ m => [7; Z.of_nat (length m)] ++ flat_map (fun kv => fst kv :: goval_code_fuel f (snd kv)) m
       end
   end.
@@ -259,7 +268,7 @@ Definition enum_match (d e : goval) : bool :=
 
 Definition is_string_kind (d : goval) : bool :=
   match d with VStr _ | VJnum _ _ _ => true | _ => false end.
-Definition is_slice_kind (d : goval) : bool := match d with VArr _ _ => true | _ => false end.
+Definition is_slice_kind (d : goval) : bool := match d with VArr _ _ | VSlice _ _ => true | _ => false end.
 Definition is_map_kind (d : goval) : bool := match d with VObj _ _ => true | _ => false end.
 Definition is_number_kind (d : goval) : bool :=
   match d with VFlt _ _ | VInt _ _ => true | _ => false end.
@@ -278,6 +287,7 @@ Definition info_for_type (d : goval) : str * str :=
       | _ => (k_integer, k_int64)
       end
   | VArr _ _ => (k_array, 0)
+  | VSlice et _ => if Z.eqb et 6 then (k_string, k_byte) else (k_array, 0)     (* []byte: type.go:63 *)
   | VObj _ _ => (k_object, 0)
   end.
 
@@ -335,7 +345,7 @@ Definition format_validate (p : path) (s : schema) (d : goval) : outcome res :=
   match d with
   | VStr x =>
       if o_fmt_check OR (s_format s) x then Ok new_res
-      else Ok (r_add new_res [invalid_type p [s_format s; -3] x])
+      else Ok (r_add new_res [invalid_type p [s_format s] x])
   | _ => Ok new_res                                             (* val.(string) not ok: nothing to say *)
   end.
 
@@ -348,38 +358,69 @@ Definition wrap_u64 (z : Z) : Z := z mod two64.
 Definition as_float64 (d : goval) : f64 :=
   match d with VFlt _ f => f | VInt _ z => n_of_int N z | _ => n_of_int N 0 end.
 
-(* values.go:325-400 + 209-300: outcome of one numeric constraint on one value *)
+(* values.go: float64AsInt64 / float64AsUint64: the constraint as an integer when that conversion is exact *)
+Definition as_int64_exact (c : f64) : option Z :=
+  match n_exact_int N c with
+  | Some z => if (- two63 <=? z) && (z <? two63) then Some z else None
+  | None => None
+  end.
+Definition as_uint64_exact (c : f64) : option Z :=
+  match n_exact_int N c with
+  | Some z => if (0 <=? z) && (z <? two64) then Some z else None
+  | None => None
+  end.
+
+(* values.go MaximumNativeType / MinimumNativeType / MultipleOfNativeType: outcome of one numeric constraint *)
+Definition max_float (v mx : f64) (excl : bool) : bool := if excl then n_le N mx v else n_lt N mx v.
+Definition min_float (v mn : f64) (excl : bool) : bool := if excl then n_le N v mn else n_lt N v mn.
+
 Definition max_native (d : goval) (mx : f64) (excl : bool) : bool :=      (* true = error *)
   match d with
   | VInt k z =>
       if ikind_signed k then
-        let b := n_to_int64 N mx in if excl then b <=? z else b <? z
+        match as_int64_exact mx with
+        | Some b => if excl then b <=? z else b <? z
+        | None => max_float (n_of_int N z) mx excl
+        end
       else if n_lt N mx (n_of_int N 0) then true
-      else let b := n_to_uint64 N mx in if excl then b <=? z else b <? z
-  | _ => let v := as_float64 d in if excl then n_le N mx v else n_lt N mx v
+      else match as_uint64_exact mx with
+           | Some b => if excl then b <=? z else b <? z
+           | None => max_float (n_of_int N z) mx excl
+           end
+  | _ => max_float (as_float64 d) mx excl
   end.
 
 Definition min_native (d : goval) (mn : f64) (excl : bool) : bool :=
   match d with
   | VInt k z =>
       if ikind_signed k then
-        let b := n_to_int64 N mn in if excl then z <=? b else z <? b
+        match as_int64_exact mn with
+        | Some b => if excl then z <=? b else z <? b
+        | None => min_float (n_of_int N z) mn excl
+        end
       else if n_lt N mn (n_of_int N 0) then false
-      else let b := n_to_uint64 N mn in if excl then z <=? b else z <? b
-  | _ => let v := as_float64 d in if excl then n_le N v mn else n_lt N v mn
+      else match as_uint64_exact mn with
+           | Some b => if excl then z <=? b else z <? b
+           | None => min_float (n_of_int N z) mn excl
+           end
+  | _ => min_float (as_float64 d) mn excl
   end.
 
 Definition mult_native (d : goval) (factor : f64) : mres :=
   match d with
   | VInt k z =>
       if ikind_signed k then
-        let f := n_to_int64 N factor in
-        if f <=? 0 then MNotPositive
-        else if Z.eqb (wrap_s64 (Z.quot z f * f)) z then MOk else MNotMultiple
+        match as_int64_exact factor with
+        | Some f => if f <=? 0 then MNotPositive
+                    else if Z.eqb (wrap_s64 (Z.quot z f * f)) z then MOk else MNotMultiple
+        | None => n_mult_of N (n_of_int N z) factor
+        end
       else
-        let f := n_to_uint64 N factor in
-        if Z.eqb f 0 then MNotPositive
-        else if Z.eqb (wrap_u64 (Z.quot z f * f)) z then MOk else MNotMultiple
+        if n_le N factor (n_of_int N 0) then MNotPositive
+        else match as_uint64_exact factor with
+             | Some f => if Z.eqb (wrap_u64 (Z.quot z f * f)) z then MOk else MNotMultiple
+             | None => n_mult_of N (n_of_int N z) factor
+             end
   | _ => n_mult_of N (as_float64 d) factor
   end.
 
